@@ -11,12 +11,13 @@ use crate::image::{Builder, Image};
 use crate::ops::{Policy, Snapshot};
 use crate::runner::{Acc, Ctx, Monitor, Tier};
 use crate::sacrifice::{in_child, ChildEnd, EXIT_BUDGET, EXIT_PANIC};
-use crate::shim::{self, CLASS_NAMES, CL_OPENDIR, CL_OPEN_FILE, CL_READ, CL_READDIR, NCLASS};
+use crate::shim::{self, CLASS_NAMES, CL_LSEEK, CL_OPENDIR, CL_OPEN_FILE, CL_READ, CL_READDIR, NCLASS};
 use crate::util::{hash_combine, Rng};
 
 pub struct C11;
 
-const CLASSES: [usize; 4] = [CL_OPENDIR, CL_READDIR, CL_OPEN_FILE, CL_READ];
+// lseek: the positioning done as part of opening a WAL file / handing the cursor to the writer
+const CLASSES: [usize; 5] = [CL_OPENDIR, CL_READDIR, CL_OPEN_FILE, CL_READ, CL_LSEEK];
 const ERRNOS: [(i32, &str); 6] = [
     (libc::EIO, "EIO"),
     (libc::EACCES, "EACCES"),
@@ -79,7 +80,7 @@ impl Monitor for C11 {
         ]
     }
     fn rule(&self) -> String {
-        "case = one WAL image (1..8 files) produced by a generated history; per image the recovery's traced opendir/readdir/open/read calls are counted in a fault-free child, then EVERY n-th call of every class is failed once and from-then-on with each of 6 errnos in a fresh forked child (exhaustive per image over injection points); evaluation = one injected recovery; oracle: the child must return Err(IoError) before a logical budget of 10x the fault-free traced calls + 1000; distinct_nontrivial = distinct (image, class, n, errno, mode) injections that hit a call after the first WAL file was opened".into()
+        "case = one WAL image (1..8 files) produced by a generated history; per image the recovery's traced opendir/readdir/open/read/lseek calls are counted in a fault-free child, then EVERY n-th call of every class is failed once and from-then-on with each of 6 errnos in a fresh forked child (exhaustive per image over injection points); evaluation = one injected recovery; oracle: the child must return Err(IoError) before a logical budget of 10x the fault-free traced calls + 1000; distinct_nontrivial = distinct (image, class, n, errno, mode) injections that hit a call after the first WAL file was opened".into()
     }
     fn assumptions(&self) -> Vec<String> {
         vec![
